@@ -1,5 +1,6 @@
 /- Line-protocol front end for ZCore: parse, check, erase, run on the machine model. -/
 import ZV.Model.ZCore
+import ZV.Model.Scope
 import ZV.Driver.C06
 import ZV.Driver.CK
 
@@ -137,6 +138,22 @@ def handle (ws : List String) : String :=
       | .ok () =>
         let (o, st, _) := runProgram fuel body stdin []
         pure ("accept " ++ ZV.Driver.CK.showOutcome o ++ " out=x" ++ ZV.Driver.C06.hex st.host.output)
+    match p.run (rest.toArray, 0) with
+    | some (s, (a, i)) => if i == a.size then s else "bad-op trailing"
+    | none => "bad-op"
+  | "alpha" :: rest =>
+    -- `alpha B <body> | B <body>`: do the two programs have the same canonical renaming?
+    let p : P String := do
+      let t ← tok; if t != "B" then failure
+      let a ← c
+      let t ← tok; if t != "|" then failure
+      let t ← tok; if t != "B" then failure
+      let b ← c
+      match canon a, canon b with
+      | some ca, some cb =>
+        pure (if toString (repr ca) == toString (repr cb) then "alpha-equal" else "alpha-different")
+      | none, none => pure "both-open"
+      | _, _ => pure "alpha-different one-open"
     match p.run (rest.toArray, 0) with
     | some (s, (a, i)) => if i == a.size then s else "bad-op trailing"
     | none => "bad-op"
